@@ -101,6 +101,11 @@ func infoFromCell(cell *hrpc.Cell) (hrpc.RegionInfo, error) {
 	if regInfo.GetOffline() {
 		return nil, OfflineRegionError{n: string(cell.Row)}
 	}
+	// The row key is the region name: table,startkey,id[.md5.]
+	// Compare relies on finding these two commas.
+	if i := bytes.IndexByte(cell.Row, ','); i < 0 || bytes.LastIndexByte(cell.Row, ',') == i {
+		return nil, fmt.Errorf("invalid region name in %q", cell)
+	}
 	var namespace []byte
 	if !bytes.Equal(regInfo.TableName.Namespace, defaultNamespace) {
 		// if default namespace, pretend there's no namespace
